@@ -29,10 +29,17 @@ package udp
 // Outbound datagram: one packet whose length field is header + payload (C06, C11). The
 // length must be representable in the 16-bit field.
 //@ func sendUDP props C06 C11
-//@   requires r != nil && 0 <= data.size && data.size <= 0xffff - header.UDPMinimumSize && data.size == vsum(data.views)
+//@   requires r != nil && 0 <= data.size && data.size <= 0xffff - header.UDPMinimumSize
+//@   requires forall(k, 0, len(data.views), len(data.views[k]) <= 65536)
+//@   loop 1 invariant -1 <= rangeindex && rangeindex < len(data.views)
 //@   modifies everything()
 
 // Write emits the payload as one datagram or fails.
 //@ func (*endpoint).Write props C06 C11
 //@   requires e != nil && e.stack != nil && p != nil
+//@   modifies everything()
+
+// binding / registration on first use: not part of this property (effect unknown)
+//@ func (*endpoint).prepareForWrite props C06 C11
+//@   trusted
 //@   modifies everything()
